@@ -337,7 +337,9 @@ def health_events(sq, res, memory_kinds_only=True, judge=True, witness=None):
     # start-up failures caused by the (loaded, shared) machine rather than by squid: harness failure, not a verdict
     env = [l for l in fl if any(x in l for x in ("failed to open db file", "Unable to open HTTP Socket", "registration timed out", "Cannot open HTTP Port"))]
     if env:
-        res.harness_failure.append("environmental squid start-up failure: " + env[0][:300])
+        # the master restarts such a kid; the run goes on. Counted, visible in the evidence, never a verdict.
+        res.count("environmental_startup_fatal", len(env))
+        res.note("environmental squid start-up failure (kid restarted by the master): " + re.sub(r"^\S+ \S+ ", "", env[0])[:200])
         fl = [l for l in fl if l not in env]
     if fl:
         ok = False
